@@ -11,6 +11,7 @@
 package c13
 
 import (
+	"context"
 	"database/sql"
 	"fmt"
 	"strings"
@@ -356,6 +357,8 @@ func checkFaultFree(op txm.Op, r result) (problems []string) {
 	return
 }
 
+var bareCauses = []error{gorm.ErrRecordNotFound, context.Canceled, sql.ErrNoRows, gorm.ErrInvalidTransaction, sql.ErrTxDone}
+
 func isCreate(k string) bool {
 	return strings.HasPrefix(k, "Create") || k == "SaveNew"
 }
@@ -574,7 +577,15 @@ func run(c *core.Ctx) {
 	}
 	// fail every hook invocation once
 	for j := 1; j <= len(ff.log); j++ {
+		// one failing invocation in three fails with a bare library error value, as a hook that looks
+		// something up and returns that call's error does
+		if (c.Case+j)%3 == 0 {
+			txm.H.Cause = bareCauses[(c.Case/3+j)%len(bareCauses)]
+			txm.H.Bare = true
+			c.Inc("faulted_runs_with_a_bare_error_value")
+		}
 		rf := execute(op.Run, j, false)
+		txm.H.Cause, txm.H.Bare = nil, false
 		c.Inc("faulted_runs")
 		if p := checkFailed(op, ff, rf, j); len(p) > 0 {
 			c.Violation("fail/"+kind+"/"+ff.log[j-1].Hook+":"+ff.log[j-1].Type, map[string]interface{}{"op": op.Desc, "failed_invocation": j, "problems": p,
